@@ -252,12 +252,10 @@ func ruleC16Grammar(c *Ctx) {
 			if !ok {
 				return
 			}
-			switch calleeQ(&call.Call) {
-			case "strings.IndexByte", "bytes.IndexByte":
-				if n, ok := constInt(call.Call.Args[1]); ok {
-					seps = append(seps, n)
-				}
-			case "strconv.ParseUint":
+			if n, ok := c.sepOfIndexCall(call); ok {
+				seps = append(seps, n)
+			}
+			if calleeQ(&call.Call) == "strconv.ParseUint" {
 				base, _ = constInt(call.Call.Args[1])
 			}
 		})
@@ -324,6 +322,7 @@ func ruleC16Grammar(c *Ctx) {
 			c.violate("C16.grammar", "tree:id-length", next.Pos(), name, fmt.Sprintf("the raw object id length is not used consistently: len(OID)=%d, %s (need a length test, copy bounds and an advance that all equal it)", L, strings.Join(consts, " ")))
 		}
 	}
+	c.checkTreeEntryExact()
 	// --- header block ends at first blank line
 	c.checkHeaderBlock()
 	// --- commit / tag arms
@@ -335,8 +334,8 @@ func ruleC16Grammar(c *Ctx) {
 	if hn := c.fn("/git", "*ObjectHeaderIter", "Next"); hn != nil {
 		var seps []int64
 		allInstrs(hn, func(in ssa.Instruction) {
-			if call, ok := in.(*ssa.Call); ok && (calleeQ(&call.Call) == "strings.IndexByte" || calleeQ(&call.Call) == "bytes.IndexByte") {
-				if n, ok := constInt(call.Call.Args[1]); ok {
+			if call, ok := in.(*ssa.Call); ok {
+				if n, ok := c.sepOfIndexCall(call); ok {
 					seps = append(seps, n)
 				}
 			}
@@ -779,6 +778,28 @@ func ruleC15Scope(c *Ctx) {
 			}
 		}
 	}
+	// GitCommand must not force configuration sources or entries of its own
+	for _, v := range c.gitCommandForcedEnv() {
+		if strings.HasPrefix(v, "GIT_CONFIG") {
+			c.violate("C15.scope", "env:"+v, token.NoPos, "", "GitCommand forces the environment variable "+v+": it replaces configuration the user supplied through the same mechanism (command scope), so entries git itself reports for the repository are not seen")
+		}
+	}
+	if gc := c.fn("/git", "*Repository", "GitCommand"); gc != nil {
+		for _, sp := range c.spawnTable() {
+			if sp.Fn != gc {
+				continue
+			}
+			for i, a := range sp.Argv {
+				if a == "-c" && i+1 < len(sp.Argv) {
+					kv := sp.Argv[i+1]
+					if strings.HasPrefix(kv, "refgroup.") || strings.HasPrefix(kv, "sizer.") || strings.HasPrefix(kv, "include.") || strings.HasPrefix(kv, "includeif.") {
+						c.violate("C15.scope", "argv:-c "+kv, sp.Call.Pos(), fnName(gc), "GitCommand injects the configuration entry "+kv+" into every git invocation")
+					}
+				}
+			}
+		}
+		c.present("C15.scope", "git-command:config-neutral", gc.Pos(), "GitCommand forces no GIT_CONFIG* variable and injects no refgroup/sizer/include configuration")
+	}
 	// the key-prefix matcher
 	c.checkKeyMatcher()
 	// which keys a group is augmented from
@@ -1087,5 +1108,99 @@ func ruleC15EachGroup(c *Ctx) {
 	})
 	if okSeen && nUpd > 0 {
 		c.hold("C15.each-group", "seen-key", aug.Pos(), "only the symbol just handled is marked as done")
+	}
+}
+
+// gitCommandForcedEnv: names of the variables GitCommand appends to the child environment.
+func (c *Ctx) gitCommandForcedEnv() []string {
+	gc := c.fn("/git", "*Repository", "GitCommand")
+	if gc == nil {
+		return nil
+	}
+	var out []string
+	allInstrs(gc, func(in ssa.Instruction) {
+		st, ok := in.(*ssa.Store)
+		if !ok {
+			return
+		}
+		fa, ok := st.Addr.(*ssa.FieldAddr)
+		if !ok || fieldOfAddr(fa).Var.Name() != "Env" {
+			return
+		}
+		_, chain := c.appendChain(st.Val, 0)
+		for _, ce := range chain {
+			if ce.Val == nil {
+				continue
+			}
+			if n, ok := envVarName(ce.Val); ok {
+				out = append(out, n)
+			}
+		}
+	})
+	return out
+}
+
+// checkTreeEntryExact: the entry handed out carries the name bytes exactly as
+// they stand in the tree (a re-slice of the cursor up to the NUL), the mode
+// parsed from the bytes before the SP, and the id copied from the 20 bytes
+// after the NUL; nothing is transformed on the way.
+func (c *Ctx) checkTreeEntryExact() {
+	next := c.fn("/git", "*TreeIter", "NextEntry")
+	if next == nil {
+		return
+	}
+	name := fnName(next)
+	var nameStore *ssa.Store
+	allInstrs(next, func(in ssa.Instruction) {
+		if st, ok := in.(*ssa.Store); ok {
+			if fa, ok := st.Addr.(*ssa.FieldAddr); ok {
+				fi := fieldOfAddr(fa)
+				if fi.Struct != nil && fi.Struct.Obj().Name() == "TreeEntry" && fi.Var.Name() == "Name" {
+					nameStore = st
+				}
+			}
+		}
+	})
+	var nameVal ssa.Value
+	if nameStore != nil {
+		nameVal = nameStore.Val
+	} else {
+		// built in a composite literal at the return
+		for _, ret := range returnsOf(next) {
+			if len(ret.Results) == 0 {
+				continue
+			}
+			if u, ok := ret.Results[0].(*ssa.UnOp); ok {
+				if al, ok := u.X.(*ssa.Alloc); ok {
+					for _, r := range *al.Referrers() {
+						if fa, ok := r.(*ssa.FieldAddr); ok && fieldOfAddr(fa).Var.Name() == "Name" {
+							for _, st := range storesTo(fa) {
+								nameVal = st.Val
+							}
+						}
+					}
+				}
+			}
+		}
+	}
+	if nameVal == nil {
+		c.violate("C16.grammar", "tree:name-exact", next.Pos(), name, "the entry's Name is never set from the tree data")
+		return
+	}
+	v := c.resolve(nameVal)
+	sl, ok := v.(*ssa.Slice)
+	okExact := false
+	if ok && sl.Low == nil && sl.High != nil {
+		if call, ok := c.resolve(sl.High).(*ssa.Call); ok {
+			if sep, ok := c.sepOfIndexCall(call); ok && sep == 0 {
+				// the slice is taken from the very string the NUL was searched in
+				okExact = true
+			}
+		}
+	}
+	if okExact {
+		c.hold("C16.grammar", "tree:name-exact", posOf(sl), "Name = cursor[:index of NUL]: the name bytes exactly as stored")
+	} else {
+		c.violate("C16.grammar", "tree:name-exact", nameVal.Pos(), name, "the entry name handed out is not the byte range before the NUL as it stands in the tree (it is transformed, e.g. re-encoded): names would no longer have their stored bytes and lengths")
 	}
 }
